@@ -21,7 +21,7 @@ RULE = ('real TLS handshakes over socketpairs (committed self-signed certificate
         'optionally MAIL, RCPT), one segment "STARTTLS CRLF" + 0..3 injected plaintext lines (or a partial line), then commands over '
         'TLS; immediate-TLS variant. client: Client.starttls() against a scripted peer that appends plaintext reply lines behind its '
         '220. AUTH table: mechanism in {PLAIN, LOGIN, CRAM-MD5, unknown} x argument shape {initial response, challenge flow, cancel, bad '
-        'base64, "=", no argument} x position {before EHLO, normal, after success, inside a transaction} x {no TLS, STARTTLS, immediate '
+        'base64, "=", no argument} x position {before EHLO, normal, after success, inside a transaction, after an abandoned LOGIN exchange, after a refused AUTH for an unknown mechanism that carried an initial response} x {no TLS, STARTTLS, immediate '
         'TLS} x Unicode credentials x validator verdict. non-trivial = non-empty injection, or an open transaction before STARTTLS, or '
         'a non-happy AUTH shape/position; distinct = distinct case description')
 ASSUMPTIONS = ['replies are read in lock step with a 3 s guard per reply (a missing reply is a violation, slowness is not)',
@@ -473,6 +473,12 @@ def run_auth(case):
             r = cmd(b'*' if position == 'after-cancelled-login' else b'!!!')
             if r is None or not r[0].startswith('5'):
                 return [('C08:abandoned-auth-not-refused', '%s: %r' % (desc, r))], True
+        if position == 'after-refused-mechanism':
+            # an AUTH command naming a mechanism that is not on offer, with an initial response, was refused: nothing of it
+            # (the response it carried) may be left for the next exchange
+            r = cmd(b'AUTH X-OTHER ' + b64(b'\x00mallory\x00planted').encode())
+            if r is None or not r[0].startswith('5'):
+                return [('C08:unknown-mechanism-not-refused', '%s: %r' % (desc, r))], True
         ncb = len([t for t in h.trace if t[0] == 'AUTH'])
         # the AUTH exchange under test
         enc = lambda s: s.encode('utf-8')
@@ -757,7 +763,7 @@ def auth_table():
                 if mech == 'CRAM-MD5' and shape.startswith('badutf8'):
                     continue
                 for position in ('normal', 'before-ehlo', 'after-refused-ehlo', 'after-success', 'after-success-reehlo', 'in-transaction',
-                                 'after-cancelled-login', 'after-garbled-login'):
+                                 'after-cancelled-login', 'after-garbled-login', 'after-refused-mechanism'):
                     if position != 'normal' and shape not in ('initial', 'challenge'):
                         continue
                     for k, creds in enumerate(CREDS if (position == 'normal' and shape in ('initial', 'challenge')) else CREDS[:1]):
@@ -814,7 +820,7 @@ def replay(case):
             if case['tls'] not in ('none', 'starttls', 'immediate') or case['mech'] not in ('PLAIN', 'LOGIN', 'CRAM-MD5', 'UNKNOWN') \
                     or case['shape'] not in ('initial', 'challenge', 'cancel', 'badb64', 'noisyb64', 'equals', 'noarg', 'badutf8', 'badutf8-challenge') \
                     or case['position'] not in ('normal', 'before-ehlo', 'after-refused-ehlo', 'after-success', 'after-success-reehlo', 'in-transaction',
-                                             'after-cancelled-login', 'after-garbled-login'):
+                                             'after-cancelled-login', 'after-garbled-login', 'after-refused-mechanism'):
                 return None            # not a case this check generates: cannot be replayed
             case = dict(case, creds=[str(x) for x in case['creds']][:3])
             if len(case['creds']) != 3:
